@@ -2,4 +2,5 @@ SPECIFICATION Spec
 CONSTANTS
   Shapes <- MC_Shapes
   OuterPairs <- MC_OuterPairs
+  KindsSel <- MC_KindsSel
 CONSTRAINT Export
